@@ -8,8 +8,9 @@
 (*   C07 min-ADA, value size, transaction size      C16 Build;Build identical         *)
 (*   C19 collateral equation                                                          *)
 EXTENDS LedgerRules, TraceLib
-VARIABLES l, env, pp, keys, byron, balanced, feeReq, lastTx, colSt, colPct
-vars == <<l, env, pp, keys, byron, balanced, feeReq, lastTx, colSt, colPct>>
+F == INSTANCE Fees
+VARIABLES l, env, pp, keys, byron, balanced, feeReq, lastTx, colSt, colPct, scripts, attach, sdhFresh
+vars == <<l, env, pp, keys, byron, balanced, feeReq, lastTx, colSt, colPct, scripts, attach, sdhFresh>>
 \* ---- addresses (structure only; the full classification is Address.tla, C11)
 IsByronAddr(a) == a # <<>> /\ a[1] \div 16 = 8
 \* Shelley address with a key payment credential: header types 0,2 (base), 4 (pointer), 6 (enterprise); bit 4 set = script
@@ -41,31 +42,118 @@ VKeysNeeded(body, ws) ==
    \cup (IF HasK(body, 5) THEN LET w == GetK(body, 5) IN {SubSeq(w.kids[2*j-1].str, 2, 29) : j \in {i \in 1..(Len(w.kids) \div 2) : RewardIsKey(w.kids[2*i-1].str)}} ELSE {})
    \cup {Elems(body,14)[j].str : j \in 1..Len(Elems(body,14))}
    \cup UNION {NativeLeaves(Elems(ws,1)[j]) : j \in 1..Len(Elems(ws,1))}
+   \* key-hash voters of body[19]: voter = [type, hash], types 0 (committee hot key), 2 (DRep key), 4 (stake pool)
+   \cup (IF HasK(body, 19) THEN LET v == GetK(body, 19) IN {v.kids[2*j-1].kids[2].str : j \in {i \in 1..(Len(v.kids) \div 2) : Small(v.kids[2*i-1].kids[1].arg) \in {0, 2, 4}}} ELSE {})
+   \* native scripts provided at reference inputs
+   \cup UNION {NativeLeaves(Parse(b)) : b \in {x \in DOMAIN scripts : scripts[x].kind = "native" /\
+                  \E j \in 1..Len(Elems(body,18)) : InputKey(Elems(body,18)[j]) \in DOMAIN env /\ env[InputKey(Elems(body,18)[j])].rsh = scripts[x].hash}}
 ByronNeeded(body) == SpentByron(body, 0) \cup SpentByron(body, 13)
 \* ---- events
 Reset(e) ==
   /\ env' = [k \in {<<e.utxo[i].txid, e.utxo[i].ix>> : i \in 1..Len(e.utxo)} |->
-               LET u == CHOOSE x \in {e.utxo[i] : i \in 1..Len(e.utxo)} : <<x.txid, x.ix>> = k IN [value |-> JVal(u.value), addr |-> u.addr]]
+               LET u == CHOOSE x \in {e.utxo[i] : i \in 1..Len(e.utxo)} : <<x.txid, x.ix>> = k IN
+               [value |-> JVal(u.value), addr |-> u.addr, dh |-> Get(u, "datum_hash", <<>>), inl |-> Get(u, "inline_datum", <<>>),
+                rsh |-> Get(u, "ref_script_hash", <<>>), rss |-> Get(u, "ref_script_size", 0)]]
   /\ pp' = [a |-> FromSmall(e.pp.a), b |-> FromSmall(e.pp.b), cpb |-> FromSmall(e.pp.cpb), maxval |-> e.pp.maxval, maxtx |-> e.pp.maxtx,
-            kd |-> FromBE(e.pp.kd_n), pd |-> FromBE(e.pp.pd_n)]
+            kd |-> FromBE(e.pp.kd_n), pd |-> FromBE(e.pp.pd_n),
+            ex |-> Get(e.pp, "ex", <<0, 1, 0, 1>>), ref |-> Get(e.pp, "ref", <<0, 1>>)]
   /\ keys' = [v \in {e.keys[i].vkey : i \in 1..Len(e.keys)} |-> (CHOOSE x \in {e.keys[i] : i \in 1..Len(e.keys)} : x.vkey = v).hash]
   /\ byron' = [a \in {e.byron[i].addr : i \in 1..Len(e.byron)} |-> (CHOOSE x \in {e.byron[i] : i \in 1..Len(e.byron)} : x.addr = a).vkey]
   /\ balanced' = FALSE /\ feeReq' = <<"none">> /\ lastTx' = <<>> /\ colSt' = "unset" /\ colPct' = <<>>
+  \* script table: bytes -> hash (re-checked with hashlib by the orchestrator); redeemer attachments per purpose
+  /\ scripts' = IF Has(e, "scripts") THEN [b \in {e.scripts[i].bytes : i \in 1..Len(e.scripts)} |-> (CHOOSE x \in {e.scripts[i] : i \in 1..Len(e.scripts)} : x.bytes = b)] ELSE <<>>
+  /\ attach' = [p \in 0..4 |-> {}] /\ sdhFresh' = <<>>
 Balancing == {"AddChange", "AddInputsFromAndChange", "AddInputsFromAndChangeWithCollateralReturn"}
 ColHelpers == {"SetCollateralReturnAndTotal", "SetTotalCollateralAndReturn", "AddInputsFromAndChangeWithCollateralReturn"}
 Op(e) ==
-  /\ UNCHANGED <<env, pp, keys, byron, lastTx>>
+  /\ UNCHANGED <<env, pp, keys, byron, lastTx, scripts>>
   /\ IF Has(e.r, "panic") THEN Fail("C05", "Builder/" \o e.op \o "/panic", e.sc, e.r.panic) ELSE TRUE
   /\ balanced' = (IF e.op \in Balancing THEN Has(e.r, "ok") ELSE IF Has(e.r, "ok") THEN FALSE ELSE balanced)
   /\ feeReq' = (IF ~Has(e.r, "ok") THEN feeReq ELSE IF e.op = "SetFee" THEN <<"exact", FromBE(e.n)>> ELSE IF e.op = "SetMinFee" THEN <<"notless", FromBE(e.n)>> ELSE feeReq)
   \* collateral fields: unset | set by a helper | set through a raw setter | a helper failed while nothing was set
   /\ colSt' = (IF e.op \in ColHelpers THEN (IF Has(e.r, "ok") THEN "helper" ELSE IF colSt \in {"unset", "failed"} THEN "failed" ELSE colSt)
                ELSE IF e.op \in {"SetCollateralReturn", "SetTotalCollateral", "AddCollateral"} /\ Has(e.r, "ok") THEN "raw" ELSE colSt)
+  \* redeemer attachments: spends accumulate, the other purposes are replaced by the last successful Set* call
+  /\ attach' = (IF ~Has(e.r, "ok") \/ ~Has(e.r, "attach") THEN attach
+                ELSE LET new == {e.r.attach[i] : i \in 1..Len(e.r.attach)} IN
+                     CASE e.op = "AddPlutusInput" -> [attach EXCEPT ![0] = @ \cup new]
+                       [] e.op = "SetMint" -> [attach EXCEPT ![1] = new]
+                       [] e.op = "SetCerts" -> [attach EXCEPT ![2] = new]
+                       [] e.op = "SetWithdrawals" -> [attach EXCEPT ![3] = new]
+                       [] e.op = "SetVotes" -> [attach EXCEPT ![4] = new]
+                       [] OTHER -> attach)
+  \* the script data hash is the obligation of C09 only while it was computed after the last script-related call
+  /\ sdhFresh' = (IF ~Has(e.r, "ok") THEN sdhFresh
+                  ELSE IF e.op = "CalcScriptDataHash" THEN <<e.langs>>
+                  ELSE IF e.op \in {"AddPlutusInput", "AddNativeInput", "SetMint", "SetCerts", "SetWithdrawals", "SetVotes", "AddExtraDatum", "AddRefInput"} THEN <<>>
+                  ELSE sdhFresh)
   /\ colPct' = (IF e.op = "AddInputsFromAndChangeWithCollateralReturn" /\ Has(e.r, "ok") THEN <<FromBE(e.pct_n)>> ELSE IF e.op \in ColHelpers \cup {"SetCollateralReturn", "SetTotalCollateral"} THEN <<>> ELSE colPct)
+\* ---- Plutus / script obligations of a built transaction (C09 C10 C18 and the script parts of C06)
+\* fixed expansion rule shared with the harness: cost parameters of language v
+CostOf(v) == <<SPos(FromSmall(197209 + v)), SPos(Zero), SPos(One), SPos(FromSmall(23000)), SI(TRUE, FromSmall(5)), SPos(FromSmall(100))>>
+AllAttach == UNION {attach[p] : p \in 0..4}
+ScriptLockedAddr(a) == Len(a) >= 29 /\ (a[1] \div 16) \in {1, 3, 5, 7}
+WsScriptHashes(ws) == LET one(key) == {IF Elems(ws, key)[j].str \in DOMAIN scripts THEN scripts[Elems(ws, key)[j].str].hash ELSE <<0>> : j \in 1..Len(Elems(ws, key))} IN
+                      one(3) \cup one(6) \cup one(7)
+WsNativeHashes(B, ws) == {IF Span(B, Elems(ws,1)[j]) \in DOMAIN scripts THEN scripts[Span(B, Elems(ws,1)[j])].hash ELSE <<0>> : j \in 1..Len(Elems(ws,1))}
+RefInputKeys(body) == {InputKey(Elems(body,18)[j]) : j \in 1..Len(Elems(body,18))}
+ScriptChecks(e, tx, body, ws, sc, shape) ==
+  LET reds == Redeemers(ws)
+      live == {a \in AllAttach :      \* attachments whose item is still part of the body
+                 CASE a.purpose = 0 -> \E j \in 1..Len(Elems(body,0)) : Span(e.tx, Elems(body,0)[j]) = a.item
+                   [] a.purpose = 1 -> a.item \in MintPolicies(body)
+                   [] a.purpose = 2 -> CertIx(e.tx, body, a.item) >= 0
+                   [] a.purpose = 3 -> a.item \in RewardAccounts(body)
+                   [] OTHER -> TRUE}
+      RedOf(rid) == {j \in 1..Len(reds) : reds[j].data.mt = 0 /\ Small(reds[j].data.arg) = rid}
+      Expected(a) == CASE a.purpose = 0 -> SpendIx(body, InputKey(Parse(a.item)))
+                       [] a.purpose = 1 -> MintIx(body, a.item)
+                       [] a.purpose = 2 -> CertIx(e.tx, body, a.item)
+                       [] a.purpose = 3 -> RewardIxLedger(body, a.item)
+                       [] OTHER -> -1 IN
+  /\ (live # {} => Obl("C10", sc, <<shape, {<<a.purpose, Expected(a)>> : a \in live}>>))
+  \* C10: every attached redeemer is present, with the purpose it was attached for, at the ledger's index of its item
+  /\ \A a \in live :
+        IF RedOf(a.rid) = {} THEN Fail("C10", "Built/redeemer-missing", sc, [rid |-> a.rid, purpose |-> a.purpose])
+        ELSE LET j == CHOOSE x \in RedOf(a.rid) : TRUE IN
+             /\ Chk(reds[j].tag = a.purpose, "C10", "Built/redeemer-purpose-wrong", sc, [rid |-> a.rid, want |-> a.purpose, got |-> reds[j].tag])
+             /\ (a.purpose \in {0, 1, 2} => Chk(reds[j].ix = Expected(a), "C10", "Built/redeemer-index-wrong", sc, [rid |-> a.rid, purpose |-> a.purpose, want |-> Expected(a), got |-> reds[j].ix]))
+             /\ (a.purpose = 3 =>
+                   IF reds[j].ix = RewardIxLedger(body, a.item) THEN TRUE
+                   ELSE IF reds[j].ix = RewardIxBytes(body, a.item) THEN Note("C10", "ambiguous-order", sc, [rid |-> a.rid])   \* key and script accounts mixed
+                   ELSE Fail("C10", "Built/reward-redeemer-index-wrong", sc, [rid |-> a.rid, want |-> RewardIxLedger(body, a.item), got |-> reds[j].ix]))
+  /\ Chk(\A i, j \in 1..Len(reds) : i # j => <<reds[i].tag, reds[i].ix>> # <<reds[j].tag, reds[j].ix>>, "C10", "Built/two-redeemers-share-a-pointer", sc, 0)
+  /\ Chk(Len(reds) = Cardinality(live), "C10", "Built/redeemer-without-script-use", sc, [redeemers |-> Len(reds), uses |-> Cardinality(live)])
+  \* C18: each script in use is available exactly once: in the witness set, or at a declared reference input that is among body[18] (or spent)
+  /\ (live # {} => Obl("C18", sc, <<"scripts", shape, Cardinality(live)>>))
+  /\ \A a \in live :
+        LET h == a.sh
+            inWs == IF h \in WsScriptHashes(ws) THEN 1 ELSE 0
+            atRef == Cardinality({k \in (RefInputKeys(body) \cup {InputKey(Elems(body,0)[j]) : j \in 1..Len(Elems(body,0))}) \cap DOMAIN env : env[k].rsh = h}) IN
+        /\ Chk(inWs + atRef >= 1, "C18", "Built/script-not-available", sc, [rid |-> a.rid, purpose |-> a.purpose])
+        /\ Chk(inWs + atRef <= 1, "C18", "Built/script-available-twice", sc, [rid |-> a.rid, purpose |-> a.purpose, inWs |-> inWs, atRef |-> atRef])
+  \* C18: a spent Plutus output that carries a datum hash has that datum in the witness set (or inline at a reference input)
+  /\ \A a \in {x \in live : x.purpose = 0} :
+        LET k == InputKey(Parse(a.item)) IN
+        (k \in DOMAIN env /\ env[k].dh # <<>>) =>
+          Chk((\E j \in 1..Len(Elems(ws,4)) : Span(e.tx, Elems(ws,4)[j]) = a.db) \/ (\E r \in RefInputKeys(body) \cap DOMAIN env : env[r].inl = a.db),
+              "C18", "Built/datum-not-available", sc, [rid |-> a.rid])
+  \* witness-set plutus data is a set: no element twice (C16)
+  /\ Chk(\A i, j \in 1..Len(Elems(ws,4)) : i # j => Span(e.tx, Elems(ws,4)[i]) # Span(e.tx, Elems(ws,4)[j]), "C16", "Built/datum-emitted-twice", sc, 0)
+  /\ Chk(Cardinality(WsScriptHashes(ws)) = Len(Elems(ws,3)) + Len(Elems(ws,6)) + Len(Elems(ws,7)), "C16", "Built/script-emitted-twice", sc, 0)
+  \* C09: script data hash = H(redeemers bytes ++ datums bytes ++ language views of the versions in use), computed last
+  /\ (sdhFresh # <<>> /\ HasK(body, 11) =>
+        LET langs == {a.lang : a \in live}
+            redB == IF HasK(ws, 5) THEN Span(e.tx, GetK(ws, 5)) ELSE (IF langs = {} THEN <<>> ELSE <<160>>)
+            datB == IF HasK(ws, 4) THEN Span(e.tx, GetK(ws, 4)) ELSE <<>>
+            pre == IF Len(reds) = 0 /\ HasK(ws, 4) THEN <<160>> \o datB \o <<160>>
+                   ELSE redB \o datB \o LangViews(langs, CostOf) IN
+        /\ Obl("C09", sc, <<"sdh", langs, Len(reds), Len(Elems(ws,4))>>)
+        /\ Emit([t |-> "HASHCHK", p |-> "C09", sig |-> "Built/script-data-hash-differs-from-emitted-witness-set", sc |-> sc, alg |-> "blake2b256", pre |-> pre, expect |-> GetK(body, 11).str]))
 EnvVals == [k \in DOMAIN env |-> env[k].value]
 Built(e) ==
   LET sc == e.sc tx == Parse(e.tx) IN
-  /\ UNCHANGED <<env, pp, keys, byron, balanced, feeReq, colSt, colPct>>
+  /\ UNCHANGED <<env, pp, keys, byron, balanced, feeReq, colSt, colPct, scripts, attach, sdhFresh>>
   /\ lastTx' = e.tx
   /\ IF IsErr(tx) \/ tx.mt # 4 \/ Len(tx.kids) # 4 THEN Fail("C03", "Built/malformed-transaction", sc, tx.why) ELSE
      LET body == tx.kids[1] ws == tx.kids[2] outs == Elems(body, 1) fee == ArgN(GetK(body, 2))
@@ -81,6 +169,13 @@ Built(e) ==
           /\ Chk(OutMinAdaOk(outs[j], pp.cpb), "C07", "Built/output-below-min-ada", sc, [out |-> j, need |-> ToBE(MinAdaOf(outs[j], pp.cpb), 0), has |-> ToBE(OutValue(outs[j]).coin, 0)])
           /\ Chk(ItemLen(OutValItem(outs[j])) <= pp.maxval, "C07", "Built/value-too-large", sc, [out |-> j, size |-> ItemLen(OutValItem(outs[j]))])
      /\ (HasK(body, 16) /\ colSt = "helper" => Chk(OutMinAdaOk(GetK(body, 16), pp.cpb), "C07", "Built/collateral-return-below-min-ada", sc, 0))
+     \* ---- C09 auxiliary data hash = H(auxiliary data as serialized in this transaction)
+     /\ (HasK(body, 7) => /\ Obl("C09", sc, <<"aux", ItemLen(tx.kids[4])>>)
+                          /\ Emit([t |-> "HASHCHK", p |-> "C09", sig |-> "Built/auxiliary-data-hash-differs-from-attached-data", sc |-> sc, alg |-> "blake2b256",
+                                   pre |-> Span(e.tx, tx.kids[4]), expect |-> GetK(body, 7).str]))
+     /\ Chk(HasK(body, 7) = (tx.kids[4].mt # 7), "C09", "Built/auxiliary-data-and-hash-presence-differ", sc, 0)
+     \* ---- scripts, redeemers, datums
+     /\ ScriptChecks(e, tx, body, ws, sc, shape)
      \* ---- C16 determinism
      /\ (e.again => Chk(e.tx = lastTx, "C16", "Built/second-build-differs", sc, 0) /\ Obl("C16", sc, shape))
      \* ---- C06 fee requests
@@ -110,11 +205,19 @@ Built(e) ==
               boots == Elems(sws, 2)
               needB == ByronNeeded(body)
               size == Len(e.signed.bytes)
-              minfee == LinearMinFee(size, pp.a, pp.b) IN
+              reds == Redeemers(ws)
+              exu == SumExUnits(reds)
+              excost == F!ExUnitsCostExact(exu.mem, exu.steps, F!R(FromSmall(pp.ex[1]), FromSmall(pp.ex[2])), F!R(FromSmall(pp.ex[3]), FromSmall(pp.ex[4])))
+              \* reference scripts of the distinct outputs spent or referenced
+              refKeys == ({InputKey(Elems(body,0)[j]) : j \in 1..Len(Elems(body,0))} \cup RefInputKeys(body)) \cap DOMAIN env
+              refBytes == LET RECURSIVE S(_,_) S(T, acc) == IF T = {} THEN acc ELSE LET x == CHOOSE y \in T : TRUE IN S(T \ {x}, acc + env[x].rss) IN S(refKeys, 0)
+              refcost == F!RefScriptFeeExact(refBytes, F!R(FromSmall(pp.ref[1]), FromSmall(pp.ref[2])))
+              minfee == Add(Add(LinearMinFee(size, pp.a, pp.b), CeilDiv(excost.n, excost.d)), FloorDiv(refcost.n, refcost.d)) IN
           /\ IF gotHashes # need \/ Len(vks) # Cardinality(got) \/ Len(boots) # Cardinality(needB) \/ {boots[j].kids[1].str : j \in 1..Len(boots)} # {byron[a] : a \in needB \cap DOMAIN byron}
              THEN Emit([t |-> "TOOLFAIL", what |-> "signers attached by the harness differ from the signers the body requires", sc |-> sc,
                         d |-> [got |-> Cardinality(gotHashes), need |-> Cardinality(need), boots |-> Len(boots), needB |-> Cardinality(needB)]])
-             ELSE /\ Span(e.signed.bytes, stx.kids[1]) = Span(e.tx, body)       \* signing did not alter the body
+             ELSE /\ (IF Span(e.signed.bytes, stx.kids[1]) = Span(e.tx, body) THEN TRUE       \* signing did not alter the body
+                       ELSE Emit([t |-> "TOOLFAIL", what |-> "the signed transaction carries a different body", sc |-> sc, d |-> 0]))
                   /\ (balanced => /\ Obl("C06", sc, <<shape, Len(vks), Len(boots), Len(GetK(body,2).arg)>>)
                                   /\ Chk(Geq(fee, minfee), "C06", "Built/fee-below-minimum", sc,
                                          [fee |-> ToBE(fee, 0), min |-> ToBE(minfee, 0), size |-> size, vkeys |-> Len(vks), boots |-> Len(boots), unsafe |-> e.unsafe]))
@@ -129,7 +232,7 @@ Built(e) ==
 \* changes, so the sizes follow from the span of the coin item inside the output bytes.
 CoinItem(o) == LET v == OutValItem(o) IN IF v.mt = 0 THEN v ELSE v.kids[1]
 MinAda(e) ==
-  /\ UNCHANGED <<env, pp, keys, byron, balanced, feeReq, lastTx, colSt, colPct>>
+  /\ UNCHANGED <<env, pp, keys, byron, balanced, feeReq, lastTx, colSt, colPct, scripts, attach, sdhFresh>>
   /\ LET sc == e.sc o == Parse(e.out) cpb == FromBE(e.cpb_n) IN
      IF IsErr(o) THEN Fail("C07", "MinAda/output-malformed", sc, o.why)
      ELSE IF Has(e.r, "panic") THEN Fail("C07", "MinAda/panic", sc, e.r.panic)
@@ -146,8 +249,8 @@ MinAda(e) ==
                  [c |-> e.r.v_n, need |-> ToBE(Mul(cpb, FromSmall(160 + size1)), 0), size |-> size1])
           /\ Chk(Leq(c, Mul(cpb, FromSmall(160 + size8))), "C07", "MinAda/result-above-the-8-byte-bound", sc,
                  [c |-> e.r.v_n, bound |-> ToBE(Mul(cpb, FromSmall(160 + size8)), 0)])
-Other(e) == UNCHANGED <<env, pp, keys, byron, balanced, feeReq, lastTx, colSt, colPct>>
-Init == l = 1 /\ env = <<>> /\ pp = <<>> /\ keys = <<>> /\ byron = <<>> /\ balanced = FALSE /\ feeReq = <<"none">> /\ lastTx = <<>> /\ colSt = "unset" /\ colPct = <<>>
+Other(e) == UNCHANGED <<env, pp, keys, byron, balanced, feeReq, lastTx, colSt, colPct, scripts, attach, sdhFresh>>
+Init == l = 1 /\ env = <<>> /\ pp = <<>> /\ keys = <<>> /\ byron = <<>> /\ balanced = FALSE /\ feeReq = <<"none">> /\ lastTx = <<>> /\ colSt = "unset" /\ colPct = <<>> /\ scripts = <<>> /\ attach = [p \in 0..4 |-> {}] /\ sdhFresh = <<>>
 Next == /\ l <= Len(Rec)
         /\ LET e == Rec[l] IN
            CASE e.ev = "Reset" -> Reset(e)
